@@ -81,13 +81,15 @@ def run(repo, chk):
     chk.note_undecided('value 1 for one-hot rows', 'numerical round-off of exp / logsumexp')
     R = Rules(repo, chk)
     refcheck.run_all(R, repo, chk, 'RECUR', 'conf_ref.py', WHAT)
+    refcheck.run_all(R, repo, chk, 'RECUR', 'logits_ref.py', {'log_softmax': 'the row normaliser every confidence goes through: x - logaddexp.reduce(x, axis=1)'}, only=('log_softmax', 'get_dense_logits', 'get_full_logprobs'))
+    refcheck.run_all(R, repo, chk, 'RECUR', 'fa_ref.py', {}, only=('align_text',))
     R.run('PROV', prov, repo, Soft(chk))
     R.run('FACTS', facts, repo, Soft(chk))
     R.run('MONO', mono, repo, chk)
     chk.expect('PROV', 5)
     chk.expect('FACTS', 3)
     chk.expect('MONO', 2)
-    chk.expect('RECUR', 14)
+    chk.expect('RECUR', 18)
 
 
 SINKS = [CE + ':get_line_confidence', CE + ':get_line_confidence_transformer', CE + ':get_letter_confidence',
